@@ -131,8 +131,8 @@ func bvadd(a, b string) string {
 
 // Enc carries what heap operations need: naming context and layout.
 type Enc struct {
-	c        *Ctx
-	l        *Layout
+	c         *Ctx
+	l         *Layout
 	objTypes  *ObjTypes
 	ixWrap    bool
 	allocType types.Type // type of the struct object being allocated (set before allocObj)
@@ -143,17 +143,17 @@ type Enc struct {
 // frame check: every write must stay inside the modifies clause or touch an
 // object allocated by the function itself).
 type writeRec struct {
-	Class  string
-	Kind   string // cell, subrange, idxrange, object, all
-	Ref    string
-	Idx    string // cell/subrange: the element; idxrange: low bound
-	IdxHi  string
-	Sub    string // cell: the cell; subrange: low bound
-	SubHi  string
-	Guard  string
-	What   string
-	Block  any // *ssa.BasicBlock in which the write happens
-	Frame  any // *Frame
+	Class string
+	Kind  string // cell, subrange, idxrange, object, all
+	Ref   string
+	Idx   string // cell/subrange: the element; idxrange: low bound
+	IdxHi string
+	Sub   string // cell: the cell; subrange: low bound
+	SubHi string
+	Guard string
+	What  string
+	Block any // *ssa.BasicBlock in which the write happens
+	Frame any // *Frame
 }
 
 func (e *Enc) noteWrite(w writeRec) {
@@ -676,7 +676,8 @@ func (e *Enc) wfInto(s *State, t types.Type, L []string, fs *[]string, depth int
 	case *types.Pointer:
 		*fs = append(*fs, "(<= 0 "+L[0]+")", "(< "+L[0]+" "+s.alloc+")", "(bvult "+L[1]+" "+bv64(maxLen)+")", "(bvult "+L[2]+" "+bv64(maxLen)+")")
 		if e.objTypes != nil {
-			*fs = append(*fs, e.objTypes.ptrFact(e.l, u.Elem(), L[0]))
+			// (the nil pointer points into no object: objtype(0) is left unconstrained)
+			*fs = append(*fs, or(eq(L[0], "0"), e.objTypes.ptrFact(e.l, u.Elem(), L[0])))
 		}
 		return 3
 	case *types.Slice:
@@ -687,7 +688,7 @@ func (e *Enc) wfInto(s *State, t types.Type, L []string, fs *[]string, depth int
 			// a slice of scalars points into a scalar array allocation or
 			// into an array field of a struct: never into a struct of the
 			// repository that has no such array
-			*fs = append(*fs, e.objTypes.scalarSliceFact(u.Elem(), L[0]))
+			*fs = append(*fs, or(eq(L[0], "0"), e.objTypes.scalarSliceFact(u.Elem(), L[0])))
 		}
 		if !e.l.oneCell(u.Elem()) {
 			*fs = append(*fs, eq(L[2], bv64(0)), "(bvult "+L[1]+" "+bv64(maxLen)+")")
